@@ -20,7 +20,7 @@ from vf.checks import c14
 SHARDS = {'quick': 16, 'thorough': 64}
 TIMEOUT = {'quick': 1500, 'thorough': 7200}
 MUST_HIT = ['EarlierObject.rechecked', 'Xsd.types-in-nested-package', 'Xsd.attribute-of-unsupported-data-type', 'Xsd.well-formed', 'Xsd.types', 'Xsd.classes', 'Xsd.after-edit', 'Xsd.cli-file',
-            'Xsd.enumerator-order', 'Xsd.real-model-edit', 'Xsd.xml-special-names', 'Xsd.class-owned-directly-by-a-component', 'Xsd.type-owned-directly-by-a-component', 'Xsd.class-without-declared-attributes']
+            'Xsd.enumerator-order', 'Xsd.real-model-edit', 'Xsd.xml-special-names', 'Xsd.class-owned-directly-by-a-component', 'Xsd.type-owned-directly-by-a-component', 'Xsd.class-without-declared-attributes', 'Xsd.edited-in-place-and-generated-again']
 MUST_REACH = ['bridgepoint/gen_xsd_schema.py:build_schema', 'bridgepoint/gen_xsd_schema.py:build_component',
               'bridgepoint/gen_xsd_schema.py:build_class', 'bridgepoint/gen_xsd_schema.py:build_enum_type',
               'bridgepoint/gen_xsd_schema.py:build_user_type', 'bridgepoint/gen_xsd_schema.py:build_core_type',
@@ -57,10 +57,43 @@ def load(text):
     return l.build_metamodel()
 
 
+LIVE = []        # the metamodel and component of the last generate() call
+
+
+def live_edit(ctx, rng, d, tag):
+    '''
+    The model is edited in place - a user data type added through the API to the metamodel the schema was just generated
+    from, at global scope or inside the component - and the schema generated again from that same metamodel.
+    '''
+    import xtuml
+    from bridgepoint import gen_xsd_schema
+    m, c_c = LIVE
+    where, pkg_name = rng.choice((('pkg', 'TopPkg'), ('pkg', 'TopPkg'), ('comp', 'Inner')))
+    pkg = m.select_any('EP_PKG', lambda sel: sel.Name == pkg_name)
+    base = rng.choice(('integer', 'string', 'boolean'))
+    core = m.select_any('S_DT', lambda sel: sel.Name == base)
+    if pkg is None or core is None:
+        return
+    name = unique_name(d, 'Live', rng)
+    pe = m.new('PE_PE', Visibility=1, type=3)
+    dt = m.new('S_DT', Name=name)
+    udt = m.new('S_UDT', Gen_Type=0)
+    xtuml.relate(dt, pe, 8001)
+    xtuml.relate(pe, pkg, 8000)
+    xtuml.relate(udt, dt, 17)
+    xtuml.relate(udt, core, 18)
+    d.udts.append((name, base, where))
+    ctx.hit('Xsd.edited-in-place-and-generated-again')
+    ctx.later_refresh('schema')
+    s = ET.tostring(gen_xsd_schema.build_schema(m, c_c), 'utf-8')
+    compare(ctx, d, ET.fromstring(s), '%s, after a user type %s was added to the loaded model (%s)' % (tag, name, pkg_name))
+
+
 def generate(ctx, text, component):
     from bridgepoint import gen_xsd_schema
     m = load(text)
     c_c = m.select_any('C_C', lambda sel: sel.Name == component)
+    LIVE[:] = [m, c_c]
     schema = gen_xsd_schema.build_schema(m, c_c)
     ctx.hit('Xsd.well-formed')
     try:
@@ -233,6 +266,9 @@ def one_diagram(ctx, rng, tmpdir):
     root = generate(ctx, text, 'Comp')
     compare(ctx, d, root, 'generated')
     ctx.hit('Xsd.enumerator-order')
+    if rng.random() < 0.4:
+        live_edit(ctx, rng, d, 'generated')
+        text = bp.build(d).rows.text(rng)
     # the second component of the same model: its own classes and types, the global types; an attribute typed by
     # a type of the first component keeps that type name
     ctx.hit('Xsd.second-component')
